@@ -3,12 +3,15 @@
 Value specs are JSON.  Markers (single-key dicts) denote what JSON cannot say:
     {"__tuple__": [..]}  {"__set__": [..]}  {"__enum__": "A"}  {"__ns__": {..}} (a group / subcommand level: a nested
     Namespace in the Namespace form of the configuration, a nested dict in the dict form)
+    {"__odict__": {..}}  a collections.OrderedDict instance (what a parse returns for an OrderedDict[...] hint: a
+    mapping object of a class of its own, which the library's entry-level copies - clone / strip_meta /
+    recreate_branches - hand on as it is)
 A plain JSON object is a dict *value* (it stays a dict in every form).
 
 Two families of shapes:
   * generic  "gen:<type expr>:<default form>"  one argument --v of a container nest generated from the grammar
-             L(t)=List[t] D(t)=Dict[str,t] T(t)=Tuple[t,int] V(t)=Tuple[t,...] S(t)=Set[t] O(t)=Optional[t] over the
-             leaves i=int, e=E, plus a second argument --w: List[int] (so that a failure in --w happens after --v
+             L(t)=List[t] D(t)=Dict[str,t] T(t)=Tuple[t,int] V(t)=Tuple[t,...] S(t)=Set[t] O(t)=Optional[t]
+             R(t)=OrderedDict[str,t] over the leaves i=int, e=E, plus a second argument --w: List[int] (so that a failure in --w happens after --v
              has been processed and vice versa);
   * named    hand-written parsers (dataclasses, class-typed arguments, signature defaults, groups, subcommands,
              paths, environment, default config files, classic nargs/choices actions, Any, links, and every kind
@@ -29,10 +32,13 @@ BAD = "zz"  # invalid for every position of the shapes below except Any / str
 # value specs
 
 
+MARKERS = ("__tuple__", "__set__", "__enum__", "__ns__", "__odict__")
+
+
 def is_marker(spec, name=None):
     if isinstance(spec, dict) and len(spec) == 1:
         (k,) = spec
-        if k in ("__tuple__", "__set__", "__enum__", "__ns__"):
+        if k in MARKERS:
             return name is None or k == name
     return False
 
@@ -57,6 +63,10 @@ def build(spec, form):
             from mc.fixtures.c08.lib import E
 
             return E[spec["__enum__"]]
+        if is_marker(spec, "__odict__"):
+            from collections import OrderedDict
+
+            return OrderedDict((k, build(v, form)) for k, v in spec["__odict__"].items())
         if is_marker(spec, "__ns__"):
             inner = {k: build(v, form) for k, v in spec["__ns__"].items()}
             if form == "ns":
@@ -87,8 +97,9 @@ def to_json(spec):
             return [to_json(x) for x in spec["__set__"]]
         if is_marker(spec, "__enum__"):
             return spec["__enum__"]
-        if is_marker(spec, "__ns__"):
-            return {k: to_json(v) for k, v in spec["__ns__"].items()}
+        if is_marker(spec, "__ns__") or is_marker(spec, "__odict__"):
+            (m,) = spec
+            return {k: to_json(v) for k, v in spec[m].items()}
         return {k: to_json(v) for k, v in spec.items()}
     return spec
 
@@ -197,13 +208,16 @@ def text_of(cfg):
 # generic family: container nests
 
 
+CONSTRUCTORS = "LDTVSOR"
+
+
 def gen_types(depth):
     """Type expressions (nested lists) of constructor depth <= depth; sets only over hashable element types."""
     levels = [[["i"], ["e"]]]
     for _ in range(depth):
         prev = levels[-1]
         cur = []
-        for c in "LDTVSO":
+        for c in CONSTRUCTORS:
             for t in prev:
                 if c == "S" and not hashable(t):
                     continue
@@ -218,6 +232,14 @@ def hashable(t):
     if t[0] in ("T", "V", "O"):
         return hashable(t[1])
     return False
+
+
+def has_constructor(t, c):
+    return t[0] == c or (len(t) > 1 and has_constructor(t[1], c))
+
+
+def leaf_of(t):
+    return t[0] if len(t) == 1 else leaf_of(t[1])
 
 
 def type_depth(t):
@@ -235,6 +257,7 @@ def parse_type_name(s):
 
 
 def py_type(t):
+    from collections import OrderedDict
     from typing import Dict, List, Optional, Set, Tuple
 
     from mc.fixtures.c08.lib import E
@@ -252,22 +275,25 @@ def py_type(t):
         "V": lambda: Tuple[sub, ...],
         "S": lambda: Set[sub],
         "O": lambda: Optional[sub],
+        "R": lambda: OrderedDict[str, sub],
     }[c]()
 
 
 def gen_value(t, form, counter=None):
-    """An accepted value spec.  form "raw": every leaf a string, tuples and sets written as lists (everything needs
-    conversion); "final": exactly what a parse returns (ints, enum members, tuples, sets)."""
+    """An accepted value spec.  form "raw": every leaf a string, tuples and sets written as lists, ordered dicts as
+    plain dicts (everything needs conversion); "final": exactly what a parse returns (ints, enum members, tuples, sets,
+    OrderedDict instances); "mixed": the containers already objects of their final classes, the leaves still strings
+    (a configuration put together by hand from the right container classes)."""
     if counter is None:
         counter = itertools.count(1)
     c = t[0]
     if c == "i":
         n = next(counter)
-        return str(n) if form == "raw" else n
+        return n if form == "final" else str(n)
     if c == "e":
         n = next(counter)
         name = "AB"[n % 2]
-        return name if form == "raw" else {"__enum__": name}
+        return {"__enum__": name} if form == "final" else name
     sub = t[1]
     if c == "L":
         return [gen_value(sub, form, counter), gen_value(sub, form, counter)]
@@ -284,6 +310,9 @@ def gen_value(t, form, counter=None):
         return items if form == "raw" else {"__set__": items}
     if c == "O":
         return gen_value(sub, form, counter)
+    if c == "R":
+        items = {"k": gen_value(sub, form, counter), "m": gen_value(sub, form, counter)}
+        return items if form == "raw" else {"__odict__": items}
     raise AssertionError(t)
 
 
@@ -309,6 +338,10 @@ def gen_shape(name):
         {"v": gen_value(t, "raw"), "w": ["5", "6"]},
         {"v": gen_value(t, "final"), "w": [5, 6]},
     ]
+    if has_constructor(t, "R"):
+        # the value is an object of a mapping class of its own: also as a hand-made object whose leaves still need
+        # conversion (for list / dict / tuple / set nests the raw configuration is that already)
+        cfgs.append({"v": gen_value(t, "mixed"), "w": [5, "6"]})
     return {"name": name, "make": make, "configs": cfgs, "env_prefix": "APP"}
 
 
@@ -354,6 +387,7 @@ def _dataclasses(scratch):
 
 
 def _classes(scratch):
+    from collections import OrderedDict
     from typing import Dict, List, Optional, Tuple
 
     from jsonargparse import lazy_instance
@@ -364,6 +398,8 @@ def _classes(scratch):
     p.add_argument("--objs", type=List[Base], default=[])
     p.add_argument("--named", type=Dict[str, Base], default={})
     p.add_argument("--pair", type=Optional[Tuple[Base, int]], default=None)
+    # components held by a mapping object of a class of its own (the parsed value is an OrderedDict instance)
+    p.add_argument("--onamed", type=OrderedDict[str, Base], default=OrderedDict())
     return p
 
 
@@ -730,6 +766,9 @@ NAMED = {
             },
             {"obj": {"class_path": f"{FIX}.Other", "init_args": {"n": "3"}, "dict_kwargs": {"extra": [1, 2]}}, "pair": [{"class_path": f"{FIX}.Other", "dict_kwargs": {"e": {"k": [1]}}}, "2"]},
             {},
+            # components inside an OrderedDict: as a plain mapping (document form) / as a hand-made OrderedDict object
+            {"onamed": {"a": _cp("Sub", xs=["1"]), "b": f"{FIX}.Base"}},
+            {"onamed": {"__odict__": {"a": _cp("Sub", tp=_t([E_A], "q")), "b": {"class_path": f"{FIX}.Other", "dict_kwargs": {"e": [1]}}}}},
         ],
     },
     "sigdefaults": {
